@@ -188,15 +188,19 @@ theorem write_never_plain_param (c : CryptoOps) (kvW kvR : KeyView) (s : ColSett
   simp [encParam, hd, hemp, hw]
 
 /-- **read_restores.** What the write chain stored for `raw` (the container `p`), sent back by the database
-in text format – or in binary format for a typed column – comes out of the read chain of a reader whose
-keys include the writer's key as a value the client reads as exactly `raw`. (`raw ≠ p` holds whenever
-the AEAD adds bytes, `SealLen`.) -/
+in text format or in binary format – for a typed column AND for a column without data type – comes out of
+the read chain of a reader whose keys include the writer's key as a value the client reads as exactly `raw`.
+(`raw ≠ p` holds whenever the AEAD adds bytes, `SealLen`.) In the binary format a column without data type
+goes through the bytea text decoder first (`PgSQLDataDecoderProcessor`, `IsBinaryDataOperation`): on a
+serialized container it fails with `ErrDecodeOctalString` (`decodeEscaped_protect`: the top byte of the
+8-byte length field is a control character for containers below 2^61 bytes), so the detector receives
+exactly the stored bytes. -/
 theorem read_restores (c : CryptoOps) (kvW kvR : KeyView) (s : ColSetting) (fmt : Fmt) (raw rnd p : Bytes)
     (hne : raw ≠ [])
     (h : RoundTripHyps c s.kind kvW kvR raw rnd p)
     (hnm : matchKind s.kind raw = false) (hnr : registryMatch raw = false)
     (hp : protect c kvW s.kind raw rnd = .ok p) (hpr : raw ≠ p)
-    (hf : fmt = .text ∨ s.dtype ≠ .none) :
+    (hf : fmt = .text ∨ s.dtype ≠ .none ∨ p.length < 2^61) :
     writeChain c kvW s raw rnd = .ok p ∧
     ∃ x, readChain c kvR (some s) fmt (dbOut fmt p) = .ok x ∧ clientValue s fmt x = some raw := by
   refine ⟨writeChain_eq_protect c kvW kvR s raw rnd p h hnm hnr hp, ?_⟩
@@ -221,19 +225,36 @@ theorem read_restores (c : CryptoOps) (kvW kvR : KeyView) (s : ColSetting) (fmt 
       · simp [readChain, dbOut, hdec, hc, encodeCol, hemp, hdt]
       · simp [clientValue, hdt]
   | binary =>
-    have hty : s.dtype ≠ .none := by
-      cases hf with
-      | inl h => cases h
-      | inr h => exact h
-    have hdec : decodeCol (some s) .binary p = some (p, none) := by
-      have : (s.dtype != DType.none) = true := by simpa using hty
-      simp [decodeCol, this]
     refine ⟨raw, ?_, ?_⟩
     · cases hdt : s.dtype with
-      | none => exact absurd hdt hty
-      | bytes => simp [readChain, dbOut, hdec, hc, encodeCol, hemp, hdt]
-      | str => simp [readChain, dbOut, hdec, hc, encodeCol, hemp, hdt]
+      | none =>
+        have hl : p.length < 2^61 := by
+          rcases hf with h | h | h
+          · cases h
+          · exact absurd hdt h
+          · exact h
+        have hesc := decodeEscaped_protect c kvW s.kind raw rnd p hnm hnr hp hl
+        have hdec : decodeCol (some s) .binary p = some (p, none) := by
+          simp [decodeCol, hdt, hesc]
+        simp [readChain, dbOut, hdec, hc, encodeCol, hemp, hdt, hbne]
+      | bytes =>
+        have hdec : decodeCol (some s) .binary p = some (p, none) := by simp [decodeCol, hdt]
+        simp [readChain, dbOut, hdec, hc, encodeCol, hemp, hdt]
+      | str =>
+        have hdec : decodeCol (some s) .binary p = some (p, none) := by simp [decodeCol, hdt]
+        simp [readChain, dbOut, hdec, hc, encodeCol, hemp, hdt]
     · simp [clientValue]
+
+/-- **read_restores, binary format without data type – what reaches the detector.** The decoder hands the
+envelope detector exactly the stored container (no decoded copy, no remembered encoded value). -/
+theorem binary_untyped_delivers_stored (c : CryptoOps) (kv : KeyView) (s : ColSetting) (raw rnd p : Bytes)
+    (hnm : matchKind s.kind raw = false) (hnr : registryMatch raw = false)
+    (hp : protect c kv s.kind raw rnd = .ok p) (hl : p.length < 2^61) :
+    decodeCol (some s) .binary p = some (p, none) ∧ decodeCol none .binary p = some (p, none) := by
+  have hesc := decodeEscaped_protect c kv s.kind raw rnd p hnm hnr hp hl
+  constructor
+  · cases hdt : s.dtype <;> simp [decodeCol, hdt, hesc]
+  · simp [decodeCol, hesc]
 
 /-- **A reader without the keys gets the stored form.** If nothing inside the stored container `p` can be
 processed with the reader's keys (the hypotheses of C03 `onColumnCompat_decrypt_same`), then what the read
